@@ -147,7 +147,11 @@ impl Engine for PurityHist {
         for op in observed.iter() {
             for _ in 0..r.range(0, 2) {
                 let near = perturb_op(op, &mut r);
-                history.push(HStep::Noise(if r.chance(1, 4) { Noise::FailingGen(near, r.below(10) as u8) } else { Noise::Gen(near) }));
+                history.push(HStep::Noise(if r.chance(1, 4) {
+                    Noise::FailingGen(near, if r.chance(1, 3) { 255 } else { r.below(10) as u8 })
+                } else {
+                    Noise::Gen(near)
+                }));
             }
         }
         for op in observed.iter() {
@@ -160,7 +164,9 @@ impl Engine for PurityHist {
             let issuer = r.usize(n_issuers);
             let n = match r.below(12) {
                 0..=2 if !noise_ops.is_empty() => Noise::Gen(r.pick(&noise_ops).clone()),
-                3 | 4 if !noise_ops.is_empty() => Noise::FailingGen(r.pick(&noise_ops).clone(), r.below(10) as u8),
+                3 | 4 if !noise_ops.is_empty() => {
+                    Noise::FailingGen(r.pick(&noise_ops).clone(), if r.chance(1, 4) { 255 } else { r.below(10) as u8 })
+                }
                 5 => Noise::ImportCa(issuer),
                 6 => Noise::ParseSpki(key),
                 7 => Noise::ReloadKey(key),
@@ -725,8 +731,12 @@ fn noise(w: &mut World, n: &Noise) -> String {
         Noise::FailingGen(op, variant) => {
             // the next signer call (if this operation makes one) fails
             let k = w.bus.n_calls();
-            w.bus.0.lock().unwrap().plan.insert(k, SignerFault::Err(*variant));
+            // variant 255 stands for a signer that panics instead of returning an error
+            let fault = if *variant == 255 { SignerFault::Panic } else { SignerFault::Err(*variant) };
+            w.bus.0.lock().unwrap().plan.insert(k, fault);
             let r = w.exec_ro(op).0;
+            // (a poisoned bus mutex would be this harness's own problem: the signer stores its
+            // outcome before it panics and never panics while holding the lock)
             w.bus.0.lock().unwrap().plan.remove(&k);
             format!("{} fired={}", ret_tag(&r.ret), w.bus.n_calls() > k)
         }
@@ -833,6 +843,16 @@ pub struct ShuttleTrace {
     pub pct_depth: usize,
     pub sched_seed: u64,
     pub iterations: usize,
+    /// yield to the scheduler inside the signer seam (default). Switched off for the retry of a
+    /// run that hung: shuttle only sees its own primitives, so code under test that holds a std
+    /// lock across the signer call blocks the whole (single-threaded) scheduler when another
+    /// simulated thread wants that lock — an artefact of the simulator, not a deadlock of the code.
+    #[serde(default = "yes")]
+    pub seam_yields: bool,
+}
+
+fn yes() -> bool {
+    true
 }
 
 #[cfg(feature = "shuttle")]
@@ -865,7 +885,17 @@ impl Engine for PurityShuttle {
             pct_depth: if r.bool() { 0 } else { r.range(2, 4) as usize },
             sched_seed: r.next_u64(),
             iterations: if tier == Tier::Thorough { 40 } else { 12 },
+            seam_yields: true,
         }
+    }
+
+    fn on_hang(t: &ShuttleTrace) -> Option<ShuttleTrace> {
+        if !t.seam_yields {
+            return None;
+        }
+        let mut c = t.clone();
+        c.seam_yields = false;
+        Some(c)
     }
 
     fn execute(t: &ShuttleTrace) -> Outcome {
@@ -885,7 +915,12 @@ impl Engine for PurityShuttle {
             let session = Arc::new(shuttle::sync::Mutex::new(0u64));
             let events: Arc<Mutex<Vec<(usize, usize, bool)>>> = Arc::new(Mutex::new(Vec::new()));
             let ev2 = events.clone();
+            let seam_yields = t.seam_yields;
             let hook: crate::signer::SeamHook = Arc::new(move |slot: usize, exit: bool| {
+                if !seam_yields {
+                    ev2.lock().unwrap().push((0, slot, exit));
+                    return;
+                }
                 let me = shuttle::thread::current().id();
                 let tid = format!("{:?}", me).bytes().fold(0usize, |a, b| a.wrapping_mul(31).wrapping_add(b as usize));
                 if !exit {
